@@ -237,10 +237,19 @@ def r3b_reader_counters(ctx):
     for o in c04.r1_wiring(ctx):
         yield o
 
+def r5_shared_tokenizer(ctx):
+    """the segments the normaliser writes are the ones the tokenizer yields: no loss or stray line break at a buffer
+    boundary (C01.R3 exits/buffer conservation, C01.R5 strip set)"""
+    for fn in (c01.r3_tokenizer_exits, c01.r5_strip_set):
+        for o in fn(ctx):
+            yield o
+
+
 RULES = [
     Rule('C20.R1', 'input is read by path through X12Reader, which opens it in a valid text read mode', r1_open_mode, floor=2),
     Rule('C20.R2', 'every output option receives the buffer (must-pass-through)', r2_outputs, floor=3),
     Rule('C20.R3', 'repair table agrees with the reader: codes, tuple position, expressions', r3_repair_table, floor=10),
     Rule('C20.R3b', 'shared with C04.R1: the reader counters the repair reads are reset/incremented where the envelope says', r3b_reader_counters, floor=37),
     Rule('C20.R4', 'segments re-formatted with source delimiters, once each, eol = LF or empty', r4_format, floor=3),
+    Rule('C20.R5', 'shared with C01.R3/R5: tokenizer loop exits, buffer conservation and strip set', r5_shared_tokenizer, floor=6),
 ]
